@@ -322,6 +322,14 @@ def history_and_callable_scenarios(rng, n):
         out.append(({'clause': 'extra-argument-ignored', 'observed': str(r), 'extra': extra},
                     f'{sorted(binding)} vs the same plus {extra}={val}: == gave {r}'))
         break
+  # an argument set on one side only (the other side sets different parameters, to their defaults or not)
+  for xs, ys in (({'a': 1}, {'b': 5}), ({'a': 1, 'd': None}, {'b': 5}), ({'b': 0, 'd': None}, {'a': 2}),
+                 ({'a': 1, 'b': 0, 'd': None}, {'r': 7}), ({'p': 3}, {'q': 3}), ({'a': 1, 'p': 3}, {'a': 1, 'q': 3})):
+    x, y = fdl.Config(kw, **xs), fdl.Config(kw, **ys)
+    r = safe(lambda: (x == y, y == x))
+    if r != (False, False):
+      out.append(({'clause': 'extra-argument-ignored', 'observed': str(r), 'extra': 'disjoint-sets'},
+                  f'Config(kw, **{xs}) vs Config(kw, **{ys}): == gave {r}; they build {fdl.build(x)} / {fdl.build(y)}'))
   # callables: equal ones must compare equal, ones that build different things must not
   b1, b2 = _Base(2), _Base(3)
   pairs = [('same-classmethod', fdl.Config(_Base.make, 4), fdl.Config(_Base.make, 4), True),
